@@ -593,3 +593,111 @@ def one_sided_key_domain(fn_node):
                     if hit is not None:
                         yield hit
                         break
+
+
+# ------------------------------------------------------------------------------------------ order provenance of index maps
+def _order_source(e, local, depth=0):
+    """Canonical description of the sequence whose iteration order `e` follows, or None when unknown.
+    ('view', net, 'nodes'|'edges'), ('dict', name), ('sorted', <src>), ('name', n)"""
+    if depth > 6 or e is None:
+        return None
+    if isinstance(e, ast.Call):
+        nm = getattr(e.func, "attr", getattr(e.func, "id", None))
+        if nm in ("list", "tuple", "iter", "asarray", "array", "fromiter", "enumerate", "stack", "vstack") and e.args:
+            return _order_source(e.args[0], local, depth + 1)
+        if nm == "sorted" and e.args:
+            inner = _order_source(e.args[0], local, depth + 1)
+            return ("sorted", inner, ast.dump(ast.Tuple(elts=[k.value for k in e.keywords], ctx=ast.Load())))
+        if nm in ("keys", "values", "items") and isinstance(e.func, ast.Attribute) and not e.args:
+            return _order_source(e.func.value, local, depth + 1)
+        if nm in ("members", "memberships") and isinstance(e.func, ast.Attribute):
+            return _order_source(e.func.value, local, depth + 1)
+        return None
+    if isinstance(e, (ast.ListComp, ast.GeneratorExp)) and len(e.generators) == 1 and not e.generators[0].ifs:
+        return _order_source(e.generators[0].iter, local, depth + 1)
+    if isinstance(e, ast.Attribute) and isinstance(e.value, ast.Name) and e.attr in ("nodes", "edges", "_node", "_edge"):
+        return ("view", e.value.id, "nodes" if e.attr in ("nodes", "_node") else "edges")
+    if isinstance(e, ast.Name):
+        defs = local.get(e.id)
+        if defs and len(defs) == 1:
+            inner = _order_source(defs[0], local, depth + 1)
+            if inner is not None:
+                return inner
+        if defs:
+            return None
+        return ("name", e.id)
+    return None
+
+
+def order_mismatch_sites(fn_node):
+    """`S[M[k]]` / `S[[M[k] for k in ...]]` where M numbers one sequence (M = {x: i for i, x in enumerate(A)},
+    dict(zip(A, range(n)))) and S lists the elements of another (S = np.asarray(list(B.values())), [f(x) for x in B]):
+    position i of S then belongs to the i-th element of B, not of A.  Yields (node, A, B) when both orders are known and
+    differ; unknown provenance is never reported."""
+    local = {}
+    for st in ast.walk(fn_node):
+        if isinstance(st, ast.Assign) and len(st.targets) == 1 and isinstance(st.targets[0], ast.Name):
+            local.setdefault(st.targets[0].id, []).append(st.value)
+    maps, seqs = {}, {}
+    for name, defs in local.items():
+        if len(defs) != 1:
+            continue
+        v = defs[0]
+        # position maps
+        if isinstance(v, ast.DictComp) and len(v.generators) == 1:
+            g = v.generators[0]
+            if isinstance(g.iter, ast.Call) and getattr(g.iter.func, "id", None) == "enumerate" and isinstance(g.target, ast.Tuple) and len(g.target.elts) == 2 and all(isinstance(x, ast.Name) for x in g.target.elts):
+                i, x = g.target.elts[0].id, g.target.elts[1].id
+                if isinstance(v.key, ast.Name) and v.key.id == x and isinstance(v.value, ast.Name) and v.value.id == i and not g.ifs:
+                    src = _order_source(g.iter.args[0], local)
+                    if src is not None:
+                        maps[name] = src
+        if isinstance(v, ast.Call) and getattr(v.func, "id", None) == "dict" and len(v.args) == 1 and isinstance(v.args[0], ast.Call) and getattr(v.args[0].func, "id", None) == "zip" and len(v.args[0].args) == 2:
+            a, b = v.args[0].args
+            if isinstance(b, ast.Call) and getattr(b.func, "id", getattr(b.func, "attr", None)) in ("range", "count", "arange"):
+                src = _order_source(a, local)
+                if src is not None:
+                    maps[name] = src
+        # positional sequences listing the elements of something
+        if isinstance(v, (ast.ListComp,)) or (isinstance(v, ast.Call) and getattr(v.func, "attr", getattr(v.func, "id", None)) in ("list", "asarray", "array", "tuple", "stack", "vstack")):
+            src = _order_source(v, local)
+            if src is not None:
+                seqs[name] = src
+    if not maps or not seqs:
+        return
+    for n in ast.walk(fn_node):
+        if isinstance(n, ast.Subscript) and isinstance(n.value, ast.Name) and n.value.id in seqs:
+            used = None
+            for x in ast.walk(n.slice):
+                if isinstance(x, ast.Subscript) and isinstance(x.value, ast.Name) and x.value.id in maps:
+                    used = x.value.id
+                    break
+            if used is None:
+                continue
+            a, b = maps[used], seqs[n.value.id]
+            if a != b:
+                yield n, a, b
+
+
+ORDER_POSITIVE = "def edge_pos(H, node_pos):\n    node_idx = {n: i for i, n in enumerate(H.nodes)}\n    xy = np.asarray(list(node_pos.values()))\n    return {e: xy[[node_idx[n] for n in m]].mean(axis=0) for e, m in H.edges.members(dtype=dict).items()}\n"
+
+
+def order_mismatch_nodes(fn_node):
+    for n, a, b in order_mismatch_sites(fn_node):
+        n._order_pair = (a, b)
+        yield n
+
+
+def describe_order_mismatch(n):
+    a, b = getattr(n, "_order_pair", (None, None))
+    return f"`{unparse(n, 60)}` looks positions up in a map that numbers {describe_order(a)} and uses them to index a sequence that lists {describe_order(b)}; position i of the sequence belongs to the i-th element of {describe_order(b)}, so whenever the two orders differ (a position dict built in another order, a sub-network) every element is given another element's value"
+
+
+def describe_order(o):
+    if o is None:
+        return "?"
+    if o[0] == "view":
+        return f"{o[1]}.{o[2]}"
+    if o[0] == "sorted":
+        return f"sorted({describe_order(o[1])})"
+    return o[1] if len(o) > 1 else str(o)
